@@ -57,6 +57,25 @@ package xpath
 //@   nopanic
 //@   ensures result == xp_string(iface(l))
 
+// The value of a leaf-list: its conversions never index the (possibly empty)
+// slice of values out of bounds; the string functions used are not modelled, so
+// the joined string itself is covered by the bounded stand-in xpath_scalar.
+//@ func (datumSliceDatum).Boolean
+//@   nopanic
+//@   ensures result == (len(d.ds) != 0)
+//@ func (datumSliceDatum).Literal
+//@   modifies *
+//@ func (datumSliceDatum).Number
+//@   modifies *
+//@ func isXpathNumber
+//@   nopanic
+//@   loop 0 invariant 0 <= i && 0 <= digits && digits <= i && 0 <= dots && dots <= i
+//@ func numberFromString
+//@   nopanic
+//@ func (datumSliceDatum).DatumSlice
+//@   nopanic
+//@   ensures result == d.ds
+
 // ---------------------------------------------------------------------------
 // Evaluation-stack shapes used by the instruction contracts. The stack is
 // specified as a whole: the untouched prefix is stated unchanged.
